@@ -400,3 +400,80 @@ Proof.
   - exfalso. destruct Hfit as (Ep & Hpr & E1 & E2 & Hft). subst pc. apply (Simple I E1 Hft (Htk_them _ E2)); [discriminate|].
     intros ->. cbn in Hshape. repeat destruct Hshape as [Hshape|Hshape]; try discriminate. exact Hshape.
 Qed.
+
+(* ---------- double check, model side: legal_moves is literally check_evasions ---------- *)
+Lemma bits_bit_sweep : forallb (fun k => match bits (bit k) with [x] => x =? k | _ => false end) all64 = true.
+Proof. vm_compute. reflexivity. Qed.
+Lemma bb_squares_bit k : k < 64 -> bb_squares (bit k) = [k].
+Proof.
+  intros Hk. pose proof (forallb_all64 _ bits_bit_sweep k Hk) as H. cbv beta in H. unfold bb_squares.
+  destruct (bits (bit k)) as [|x [|y l]]; try discriminate. apply N.eqb_eq in H. subst. reflexivity.
+Qed.
+
+Lemma king_bb_single p f s k : rep (brd p) f -> k < 64 -> f k = Some (s, King) ->
+  (forall a, a < 64 -> f a = Some (s, King) -> a = k) -> pieces p s King = bit k.
+Proof.
+  intros Hrep Hk Hfk Huk. pose proof Hrep as [_ Hlt]. apply N.bits_inj. intros q.
+  destruct (N.ltb_spec q 64) as [Hq|Hq].
+  - rewrite (pieces_rep p f s King q Hrep Hq) by discriminate. rewrite (bit_spec k q Hk).
+    destruct (N.eqb_spec q k) as [->|Hne].
+    + rewrite Hfk, side_eqb_refl. reflexivity.
+    + destruct (f q) as [[c pc]|] eqn:Ef; [|reflexivity].
+      destruct (side_eqb s c) eqn:Ec; [|reflexivity]. apply side_eqb_true in Ec. subst c.
+      destruct pc; try reflexivity. exfalso. apply Hne. apply Huk; assumption.
+  - assert (H1 : pieces p s King < two64) by (unfold pieces; apply land_lt, colour_lt, Hlt).
+    rewrite (proj1 (lt64_iff _) H1 q Hq). symmetry. apply (proj1 (lt64_iff _) (bit_lt k) q Hq).
+Qed.
+
+Theorem double_check_model_eq p f k : rep (brd p) f ->
+  find_king (board_of f) (turn p) = Some k -> (forall a, a < 64 -> f a = Some (turn p, King) -> a = k) ->
+  (1 <? bb_count (checkers p)) = true -> legal_moves p = check_evasions p.
+Proof.
+  intros Hrep Hk Huk Hd. destruct (king_position_exact p f _ k Hrep Hk) as (Ekp & Hk64 & Hfk).
+  unfold legal_moves, legal_moves_gen, legal_captures_gen, legal_noncaptures. cbv zeta. rewrite Hd.
+  unfold check_evasions, king_captures, king_allowed. cbv zeta. rewrite Ekp.
+  rewrite (king_bb_single p f (turn p) k Hrep Hk64 Hfk Huk). unfold emit at 2. rewrite (bb_squares_bit k Hk64). cbn [flat_map]. rewrite app_nil_r.
+  f_equal; f_equal; rewrite N.land_comm; reflexivity.
+Qed.
+
+(* two checkers from the population count of checkers() *)
+Lemma two_members {A} (l : list A) : NoDup l -> (2 <= length l)%nat -> exists a b, a <> b /\ In a l /\ In b l.
+Proof.
+  intros Hnd Hl. destruct l as [|a [|b l]]; cbn in Hl; try lia. exists a, b. split; [|split; [left; reflexivity|right; left; reflexivity]].
+  intros ->. inversion Hnd as [|? ? Hn _]. apply Hn. left. reflexivity.
+Qed.
+
+Lemma nodup_squares : NoDup squares.
+Proof. apply (NoDup_map_inv N.to_nat). unfold squares. rewrite map_map. erewrite map_ext; [rewrite map_id; apply seq_NoDup|]. intros a. apply Nat2N.id. Qed.
+
+Lemma checkers_two p k : wf p = true -> find_king (abs_board p) (turn p) = Some k ->
+  (1 <? bb_count (checkers p)) = true -> exists a1 a2, a1 <> a2 /\ checker p k a1 /\ checker p k a2.
+Proof.
+  intros Hwf Hk Hd. pose proof (wf_rep (brd p) Hwf) as Hrep. pose proof Hrep as [_ Hlt].
+  assert (Hc64 : checkers p < two64) by (unfold checkers; apply attackers_lt; exact Hlt).
+  rewrite (bb_count_members _ Hc64), <- (bb_squares_members _ Hc64) in Hd.
+  rewrite (checkers_exact p (cell_of_b (brd p)) k Hrep Hk) in Hd.
+  assert (In_chk : forall a, In a (attackers_of (abs_board p) k (opp_side (turn p))) -> checker p k a).
+  { intros a Ha. unfold attackers_of in Ha. apply filter_In in Ha. destruct Ha as [Ha Hc]. apply in_squares in Ha.
+    split; [exact Ha|]. change (abs_board p) with (board_of (cell_of_b (brd p))) in Hc. rewrite at_board_of in Hc by exact Ha.
+    destruct (cell_of_b (brd p) a) as [[c pc]|] eqn:Ef; [|discriminate]. apply andb_true_iff in Hc. destruct Hc as [Hc1 Hc2].
+    apply side_eqb_true in Hc1. subst c. exists pc. split; [first [exact Ef|reflexivity]|exact Hc2]. }
+  destruct (two_members (attackers_of (abs_board p) k (opp_side (turn p)))) as (a1 & a2 & Hne & H1 & H2).
+  - unfold attackers_of. apply NoDup_filter. exact nodup_squares.
+  - apply N.ltb_lt in Hd. change (board_of (cell_of_b (brd p))) with (abs_board p) in Hd. lia.
+  - exists a1, a2. split; [exact Hne|]. split; apply In_chk; assumption.
+Qed.
+
+(* milestone 2: in double check legal_moves() is exactly the set of legal moves of the rules, without repetition *)
+Theorem double_check_exact dfrc p : wf p = true -> rooks_ok p -> legal_consistent dfrc (abs p) = true ->
+  (1 <? bb_count (checkers p)) = true ->
+  NoDup (legal_moves p) /\ forall m, In m (legal_moves p) <-> In m (spec_moves (abs p)).
+Proof.
+  intros Hwf Hr Hlc Hd. pose proof (wf_rep (brd p) Hwf) as Hrep.
+  destruct (lc_king dfrc p (turn p) Hlc) as [k [Hk Huk]].
+  rewrite (double_check_model_eq p (cell_of_b (brd p)) k Hrep Hk Huk Hd).
+  split; [apply check_evasions_nodup|]. intros m. rewrite (check_evasions_exact_lc dfrc p m Hwf Hlc).
+  split; [intros [H _]; exact H|]. intros H. split; [exact H|].
+  destruct (checkers_two p k Hwf Hk Hd) as (a1 & a2 & Hne & Hc1 & Hc2).
+  exact (double_check_only_king dfrc p k a1 a2 m Hwf Hr Hlc Hk Huk Hc1 Hc2 Hne H).
+Qed.
